@@ -99,6 +99,35 @@ pub fn mutate(rng: &mut Rng, v: Version, img: &mut Vec<u8>) -> String {
                 format!("dir slot {} field +{} := {:#x}", slot, field, val)
             }
         }
+        40..=44 if nsect >= 4 => {
+            // a DIFAT chain laid through arbitrary sectors: every cell FREE (valid), next
+            // pointers forming a proper chain, a cycle through the first sector, or a cycle
+            // that does not pass through the first sector (A -> B -> B, A -> B -> C -> B)
+            let a = rng.below(nsect as u64) as usize;
+            let b = (a + 1 + rng.below(nsect as u64 - 1) as usize) % nsect;
+            let c = (b + 1 + rng.below(nsect as u64 - 1) as usize) % nsect;
+            let shape = rng.below(5);
+            let fill = |img: &mut Vec<u8>, s: usize, next: u32| {
+                let off = (s + 1) * sl;
+                if off + sl <= img.len() {
+                    for x in img[off..off + sl - 4].iter_mut() {
+                        *x = 0xFF;
+                    }
+                    img[off + sl - 4..off + sl].copy_from_slice(&next.to_le_bytes());
+                }
+            };
+            match shape {
+                0 => { fill(img, a, b as u32); fill(img, b, 0xFFFF_FFFE); }
+                1 => { fill(img, a, b as u32); fill(img, b, a as u32); }
+                2 => { fill(img, a, b as u32); fill(img, b, b as u32); }
+                3 => { fill(img, a, b as u32); fill(img, b, c as u32); fill(img, c, b as u32); }
+                _ => { fill(img, a, a as u32); }
+            }
+            img[68..72].copy_from_slice(&(a as u32).to_le_bytes());
+            let nd = rng.below(4) as u32;
+            img[72..76].copy_from_slice(&nd.to_le_bytes());
+            format!("DIFAT chain shape {} through sectors {} {} {}", shape, a, b, c)
+        }
         10..=14 => {
             // a single byte anywhere
             let off = rng.below(img.len() as u64) as usize;
@@ -322,6 +351,11 @@ pub fn run(mode: &str, seed: u64, count: usize, out: &str) -> Report {
             }
             Err(_) => {
                 rep.fail(format!("mutants {} seed={} case={} [{}] strict={}: TIMEOUT (hang)", mode, seed, i, desc, strict));
+                // the worker is still spinning; one hang decides the property, stop here
+                if rep.samples.len() < 3 {
+                    rep.samples.push(desc);
+                }
+                break;
             }
         }
         if rep.samples.len() < 3 {
